@@ -173,10 +173,11 @@ def not_a_reference_edges(b, within=None):
             isref = k is not None and "as_reference" in ((k.get("fn") or "") + (k.get("res") or ""))
         if not isref:
             continue
+        # only a block that can be entered on that edge alone stands for the edge (an arm shared with the `Ok` outcome does not)
         for v, x in t["tg"]:
-            if v == "1":
+            if v == "1" and len(b.pred[x]) == 1:
                 out.add(x)
-        if not any(v == "1" for v, x in t["tg"]) and any(v == "0" for v, x in t["tg"]):
+        if not any(v == "1" for v, x in t["tg"]) and any(v == "0" for v, x in t["tg"]) and len(b.pred[t["else"]]) == 1:
             out.add(t["else"])
     return out
 
